@@ -81,8 +81,50 @@ def run_check(dst, extra_props=()):
     return res
 
 
+def run_check_scratch(dst, jobs=5):
+    """like run_check, but on a scratch copy of /repo (outside /repo and /verif) through VERIF_REPO: several can run at once"""
+    meta = json.load(open(os.path.join(dst, 'meta.json')))
+    prop = meta['property']
+    name = os.path.basename(dst)
+    d = os.path.join('/tmp/seedrun', name)
+    shutil.rmtree(d, ignore_errors=True)
+    os.makedirs('/tmp/seedrun', exist_ok=True)
+    shutil.copytree('/repo', d, ignore=shutil.ignore_patterns('.git'))
+    rc, out = sh('git apply %s' % os.path.join(dst, 'patch.diff'), cwd=d)
+    if rc != 0:
+        shutil.rmtree(d, ignore_errors=True)
+        return name, {'error': 'patch does not apply: ' + out[-200:]}
+    t0 = time.time()
+    rc, out = sh('./check %s --tier quick' % prop, cwd=ROOT, env={'VERIF_REPO': d, 'PYVC_JOBS': str(jobs), 'VERIF_JOBS': str(jobs)}, timeout=2400)
+    shutil.rmtree(d, ignore_errors=True)
+    viol = [l for l in out.split('\n') if l.startswith('VIOLATION')]
+    detail = [l.strip() for l in out.split('\n') if l.startswith('    ')]
+    und = [l for l in out.split('\n') if l.startswith('UNDECIDED')]
+    by = sorted({('deductive' if 'obligation' in x.split(':')[0] else 'floor') for x in detail})
+    res = {prop: {'exit': rc, 'violations': len(viol), 'detected_by': by, 'first': (viol[:1] + detail[:2]), 'undecided': und[:3],
+                  'no_failing_input': sum('no-failing-input-found' in v for v in viol), 'wall_s': round(time.time() - t0, 1)}}
+    meta['verif'] = res
+    json.dump(meta, open(os.path.join(dst, 'meta.json'), 'w'), indent=1)
+    return name, res
+
+
 if __name__ == '__main__':
     mode = sys.argv[1]
+    if mode == 'prun':
+        # parallel re-run on scratch copies: one wave per mutant number so that two runs never share a property (evidence file)
+        from concurrent.futures import ThreadPoolExecutor
+        names = sys.argv[2:] or sorted(n for n in os.listdir(os.path.join(ROOT, 'seeded')) if not n.startswith('harmless'))
+        waves = {}
+        for n in names:
+            waves.setdefault(n.split('-')[-1], []).append(n)
+        for w in sorted(waves):
+            with ThreadPoolExecutor(3) as ex:
+                for name, r in ex.map(lambda n: run_check_scratch(os.path.join(ROOT, 'seeded', n)), waves[w]):
+                    for p_, v in (r.items() if 'error' not in r else []):
+                        print(name, p_, 'exit', v['exit'], v['violations'], 'violations', v['detected_by'], v['wall_s'], 's', flush=True)
+                    if 'error' in r:
+                        print(name, r, flush=True)
+        sys.exit(0)
     if mode == 'confirm':
         for src in sys.argv[2:]:
             name, dst, msg = confirm(src)
